@@ -159,10 +159,14 @@ type c10Scenario struct {
 	newSpec  *specs.Spec
 }
 
-func c10Spec(tag string, big bool) *specs.Spec {
+func c10Spec(tag string, big bool, huge ...bool) *specs.Spec {
 	s := &specs.Spec{Version: "0.6.0", Kind: "vendor.com/gpu", Devices: []specs.Device{{Name: "dev0", ContainerEdits: specs.ContainerEdits{Env: []string{"CONTENT=" + tag}}}}}
 	if big {
-		for i := 0; i < 900; i++ {
+		n := 900
+		if len(huge) > 0 && huge[0] {
+			n = 24000 // ~1.5 MiB
+		}
+		for i := 0; i < n; i++ {
 			s.Devices[0].ContainerEdits.Env = append(s.Devices[0].ContainerEdits.Env, fmt.Sprintf("PAD_%s_%04d=%s", tag, i, strings.Repeat("x", 50)))
 		}
 	}
@@ -306,21 +310,30 @@ func checkC10(c *Ctx) {
 	}
 	// the previous file is a symbolic link (which the scan loads like a file)
 	combos = append(combos, c10Combo{"json", true, false, "rel"}, c10Combo{"json", true, true, "abs"}, c10Combo{"yaml", true, false, "abs"}, c10Combo{"yaml", true, true, "rel"})
+	// new content of more than a MiB (size is no excuse, for the writer or for whoever reads)
+	combos = append(combos, c10Combo{"yaml", true, true, "huge"}, c10Combo{"json", false, true, "huge"})
 	for _, cb := range combos {
 		{
 			{
 				enc, prev, big := cb.enc, cb.prev, cb.big
 				sc := &c10Scenario{enc: enc, prev: prev, big: big, link: cb.link}
+				huge := cb.link == "huge"
+				if huge {
+					sc.link = ""
+				}
 				sc.name = fmt.Sprintf("%s-prev%v-big%v", enc, prev, big)
 				if cb.link != "" {
 					sc.name += "-link" + cb.link
+				}
+				if huge {
+					sc.name = fmt.Sprintf("%s-prev%v-huge", enc, prev)
 				}
 				sc.dir = filepath.Join(c.Scratch, "s-"+sc.name, "specs")
 				// the Spec name is the caller's: characters that mean something to a
 				// pattern, a format or a shell must not leak into how the file is staged
 				stem := c10Stems[len(scenarios)%len(c10Stems)]
 				sc.target = filepath.Join(sc.dir, stem+"."+enc)
-				sc.oldSpec, sc.newSpec = c10Spec("old", false), c10Spec("new", big)
+				sc.oldSpec, sc.newSpec = c10Spec("old", false), c10Spec("new", big, huge)
 				sc.oldData = specBytes(sc.oldSpec, enc)
 				sc.specFile = filepath.Join(c.Scratch, "s-"+sc.name, "new-spec.json")
 				must(os.MkdirAll(filepath.Dir(sc.specFile), 0o755))
@@ -771,15 +784,20 @@ func c10Inotify(cs *Case) {
 			}
 		}(rd)
 	}
-	// writers (two, racing on the same name)
-	n := c.pick(400, 10000)
+	// writers (three, racing on the same name: two of them through one cache object,
+	// the third through a cache of its own)
+	n := c.pick(600, 12000)
 	var ww sync.WaitGroup
-	for w := 0; w < 2; w++ {
+	sharedCache, _ := cdi.NewCache(cdi.WithSpecDirs(dir), cdi.WithAutoRefresh(false))
+	for w := 0; w < 3; w++ {
 		ww.Add(1)
 		go func(w int) {
 			defer ww.Done()
-			wc, _ := cdi.NewCache(cdi.WithSpecDirs(dir), cdi.WithAutoRefresh(false))
-			for i := 0; i < n/2; i++ {
+			wc := sharedCache
+			if w == 2 {
+				wc, _ = cdi.NewCache(cdi.WithSpecDirs(dir), cdi.WithAutoRefresh(false))
+			}
+			for i := 0; i < n/3; i++ {
 				s := specA
 				if (i+w)%2 == 0 {
 					s = specB
